@@ -102,7 +102,7 @@ func snapTerm(b rlBase, s quic.VerifRunLoopSnap) string {
 	return u.App("mkSnap", u.Z(b.t(s.Now)), u.B(s.Client), u.B(s.HandshakeComplete), u.Z(s.IdleTimeout), u.Z(s.KeepAliveInterval),
 		u.Z(s.CfgKeepAlivePeriod), u.Z(s.CfgMaxIdleTimeout), u.Z(s.CfgHandshakeIdle), u.Z(s.CfgHandshakeTimeout),
 		u.Z(b.t(s.CreationTime)), u.Z(b.t(s.LastPacketReceived)), u.Z(b.t(s.FirstAckElicitingAft)), u.B(s.KeepAlivePingSent),
-		u.Z(int64(s.Blocked)), u.Z(b.t(s.PacingDeadline)), u.Z(s.PTO), u.Z(b.t(s.AckAlarm)), u.Z(b.t(s.LossTimeout)))
+		u.Z(int64(s.Blocked)), u.Z(b.t(s.PacingDeadline)), u.Z(s.PTO), u.Z(b.t(s.AckAlarm)), u.Z(b.t(s.LossTimeout)), u.Z(b.t(s.NextRetire)))
 }
 
 // error classes shared with Run.v (errk_of)
@@ -764,6 +764,16 @@ func runOneRL(c rlCase, o *rlOut) {
 				time.Duration(s.KeepAliveInterval) > peerIdleOf(rc).Truncate(time.Millisecond)/2 {
 				o.fail("runloop/keep-alive-exceeds-peer-idle", fmt.Sprintf("%s: keepAliveInterval=%v although the peer times out after %v (KeepAlivePeriod %v, own idle timeout %v)", rc.name,
 					time.Duration(s.KeepAliveInterval), peerIdleOf(rc), time.Duration(s.CfgKeepAlivePeriod), time.Duration(s.CfgMaxIdleTimeout)))
+			}
+			// a connection ID waiting for the end of its retirement grace period is a timer source in every block mode
+			if s.NextRetire != 0 {
+				o.count(fmt.Sprintf("snap retirement pending blocked=%d hs=%v", s.Blocked, s.HandshakeComplete))
+				if s.TimerDeadlineOK && s.TimerDeadline > s.NextRetire {
+					o.fail("runloop/deadline-after-retirement", fmt.Sprintf("%s: timer armed %v after the next connection-ID retirement is due (block mode %d)", rc.name, time.Duration(s.TimerDeadline-s.NextRetire), s.Blocked))
+				}
+				if s.TimerDeadlineOK && s.TimerDeadline == s.NextRetire {
+					o.count("snap deadline = retirement")
+				}
 			}
 			// monitors on the implementation's own numbers (independent of the model):
 			if s.KeepAlivePingSent && s.Now < s.LastPacketReceived+s.KeepAliveInterval {
